@@ -148,6 +148,9 @@ func brokerPayload(tag string) []byte {
 	if tag == "M" {
 		n = 16384 - 8192 - 16
 	}
+	if tag == "MID" {
+		n = 12000 // fits a 16 KiB ring, but not next to a read block of 8 KiB (only a will can be that long: it arrives in the CONNECT)
+	}
 	if tag == "HUGE" {
 		n = 20000 // more than a 16 KiB ring holds: cannot arrive through a ring, only inside a CONNECT (will)
 	}
@@ -214,7 +217,7 @@ func (f fragConn) Write(p []byte) (int, error) {
 
 var fragMode = 0
 
-var payloadTags = []string{"x", "y", "z", "w", "w1", "w2", "w3", "B", "B2", "M", "p1", "p2"}
+var payloadTags = []string{"x", "y", "z", "w", "w1", "w2", "w3", "B", "B2", "M", "p1", "p2", "MID", "HUGE"}
 
 func tagOf(b []byte) string {
 	if len(b) == 0 {
